@@ -153,3 +153,26 @@ Section Pool.
     intros groups jobs e Hp H. eapply interleaving_perm_workers; [|exact Hp]. exact (pool_flatten groups [] e H).
   Qed.
 End Pool.
+
+(* ---------------------------------------------------------------- (4) AddFieldParallel2 *)
+(* AddFieldParallel2: the workers only COMPUTE (one array of values per (attribute, chunk) job); the calling goroutine
+   adds the arrays into the canvas one after the other, in the order in which they arrive on the result channel.
+   Whatever that order is -- any permutation of the dispatched jobs -- every cell ends as after the sequential
+   AddField.  (Job after job in a permuted order is a special interleaving of the jobs.) *)
+Section Collector.
+  Context {K V : Type} (keqb : K -> K -> bool) (add : V -> V -> V).
+  Hypothesis keqb_spec : forall a b, keqb a b = true <-> a = b.
+
+  Theorem addfield_collector_any_arrival_order :
+    forall (jobs arrival : list (K * list (Z * V))) st,
+      NoDup (map fst jobs) -> Permutation arrival jobs ->
+      forall k c, run_canvas keqb add (List.concat (map job_steps arrival)) st k c
+                  = run_canvas keqb add (List.concat (map job_steps jobs)) st k c.
+  Proof.
+    intros jobs arrival st Hn Hp.
+    apply (addfield_any_schedule keqb add keqb_spec jobs (List.concat (map job_steps arrival)) st Hn).
+    apply (interleaving_perm_workers _ (map job_steps arrival)).
+    - apply sched_seq_interleaving.
+    - apply Permutation_map. exact Hp.
+  Qed.
+End Collector.
